@@ -211,6 +211,9 @@ def hash_pairs(ctx, seed):
     ft2.value = 2.0
     yield "Feature", "assign_after_hash", ft2, data.Feature(term=t, value=2.0)
     for name in ("Note", "SoundEvent", "SoundEventAnnotation", "SoundEventPrediction", "ClipPrediction"):
+        # a twin: every field equal except the identifier (whether the library calls the two equal is its business)
+        yield name, "twin_with_other_uuid", objs[name], objs[name].model_copy(update={"uuid": g.uid()})
+    for name in ("Note", "SoundEvent", "SoundEventAnnotation", "SoundEventPrediction", "ClipPrediction"):
         a = objs[name]
         hash(a)
         nu = g.uid()
